@@ -22,7 +22,7 @@ RULE = ('seeded worlds (2-8 segments, 1-4 channels, some with identical shapes s
         'of that handle - or, in a third of those worlds, the caller is interrupted there (KeyboardInterrupt) and goes on using the handle - (the read that meets it may fail, every later read must still be right); in 30% of worlds a second file - a sibling with the same objects, sizes and lengths but another distribution over the segments, or an unrelated file with the same paths - is open at the same time and read in between. distinct = distinct abstract traces [(action, generator '
         'kind, op kind)...] x world shape; non-trivial = at least one generator was advanced with another '
         'action interleaved between two of its yields')
-EXPECTED_PROBES = ['interrupt:op-raised', 'truncated-file', 'second-file-op', 'eio:op-raised', 'eio:generator-hit', 'scaled-channel', 'read-between-file-chunks', 'two-generators-same-channel', 'abandoned-then-new',
+EXPECTED_PROBES = ['caller-scribbled-on-result', 'interrupt:op-raised', 'truncated-file', 'second-file-op', 'eio:op-raised', 'eio:generator-hit', 'scaled-channel', 'read-between-file-chunks', 'two-generators-same-channel', 'abandoned-then-new',
                    'index-cache-hit-after-other-read', 'generator-drained-at-end']
 MAX_LIVE = 8
 
@@ -318,7 +318,8 @@ def execute(case):
                     if tf2 is None or a['ch'] not in fulls2:
                         continue
                     op = {k: v for k, v in a.items() if k != 'a'}
-                    v, g_, exc = _lazy.check_op(tf2, w2, op, fulls2[a['ch']], 'C05.other-file-op', 'lazy', keeper=keeper)
+                    v, g_, exc = _lazy.check_op(tf2, w2, op, fulls2[a['ch']], 'C05.other-file-op', 'lazy', res=res, keeper=keeper,
+                                                   scribble=(step % 3 == 1))
                     res.compared += 1
                     res.probe('second-file-op')
                     if v is not None:
@@ -357,7 +358,7 @@ def execute(case):
                             other_read_since[k_] = True
                     fired0 = st.fs.faults_fired.get('eio', 0)
                     try:
-                        v, g_, exc = _lazy.check_op(tf, w, op, full, 'C05.op', 'lazy', keeper=keeper)
+                        v, g_, exc = _lazy.check_op(tf, w, op, full, 'C05.op', 'lazy', res=res, keeper=keeper, scribble=(step % 3 == 0))
                     except KeyboardInterrupt:
                         v, g_, exc = None, None, 'KeyboardInterrupt'
                         res.probe('interrupt:op-raised')
